@@ -179,6 +179,13 @@ def rejected_forms():
                   "\\u004", "\\x41", "\\u{41}", "\\u00 41", "\\u-041"]:
             out.append((quote + t + quote, "malformed-u"))
             out.append((quote + "ab" + t + quote, "malformed-u"))
+        # characters that are digits/hex-looking for Python's int() and \\d but not HEXDIG
+        for d in ["\u0664", "\uff10", "\u0967", "\U0001d7d6", "\uff21", "\uff41", "\u00b2", "\u2460"]:
+            for k in range(4):
+                h = "0041"
+                out.append((quote + "\\u" + h[:k] + d + h[k + 1:] + quote, "non-ascii-digit-in-u"))
+                lo = "DE00"
+                out.append((quote + "\\uD83D\\u" + lo[:k] + d + lo[k + 1:] + quote, "non-ascii-digit-in-u"))
         for t in ["\\uD800\\u0041", "\\uD800A", "\\uD800\\n", "\\uD800", "\\uDBFF\\uD800", "\\uD83D\\u", "\\uD83D\\uDE0",
                   "\\uD83D\\uDE0G", "\\uD83D \\uDE00", "\\uD83D\\\\uDE00", "\\uDC00\\uD800", "\\ud800\\ud800",
                   "\\uD83Dx\\uDE00", "\\uD83D\\uE000", "\\uD83D\\uDBFF"]:
